@@ -166,8 +166,8 @@ theorem find_reply_nested (nested : List Dgram) (tok : List UInt8)
     exact ih (fun d hd => hn d (by simp [hd]))
 
 /-- What `respond` yields, by case. -/
-theorem respond_tok (typ : RType) (mid : Nat) (tok : List UInt8) (w : Option Wr) (m : Nat) (r : Dgram) (b : Bool)
-    (h : (respond typ mid tok w m).2 = some (r, b)) : r.tok = tok ∨ r.tok = [] := by
+theorem respond_tok (ec : Bool) (typ : RType) (mid : Nat) (tok : List UInt8) (w : Option Wr) (m : Nat) (r : Dgram) (b : Bool)
+    (h : (respond ec typ mid tok w m).2 = some (r, b)) : r.tok = tok ∨ r.tok = [] := by
   unfold respond at h
   cases w with
   | none => cases typ <;> simp at h; exact Or.inr (by rw [← h.1])
@@ -176,12 +176,13 @@ theorem respond_tok (typ : RType) (mid : Nat) (tok : List UInt8) (w : Option Wr)
     split at h <;> cases typ <;> simp at h <;> exact Or.inl (by rw [← h.1])
 
 
+/-- With the empty / reset reply cached as well, every reply that is written is cached. -/
 theorem respond_uncached (typ : RType) (mid : Nat) (tok : List UInt8) (beh : Beh) (n m : Nat) (r : Dgram)
-    (h : (respond typ mid tok (handlerWr beh n) m).2 = some (r, false)) : beh = .empty := by
-  cases beh <;> first | rfl | (exfalso; cases typ <;> simp [respond, handlerWr] at h)
+    (h : (respond true typ mid tok (handlerWr beh n) m).2 = some (r, false)) : False := by
+  cases beh <;> cases typ <;> simp [respond, handlerWr] at h
 
-theorem respond_none (typ : RType) (mid : Nat) (tok : List UInt8) (beh : Beh) (n m : Nat)
-    (h : (respond typ mid tok (handlerWr beh n) m).2 = none) : typ = .non ∧ (beh = .none ∨ beh = .sep) := by
+theorem respond_none (ec : Bool) (typ : RType) (mid : Nat) (tok : List UInt8) (beh : Beh) (n m : Nat)
+    (h : (respond ec typ mid tok (handlerWr beh n) m).2 = none) : typ = .non ∧ (beh = .none ∨ beh = .sep) := by
   unfold respond at h
   cases beh <;> simp [handlerWr] at h <;> cases typ <;> simp at h <;> simp
 
@@ -246,7 +247,7 @@ theorem inv_flush {L : Nat} {s : State} (h : Inv L s) : Inv L (flush s).1 := by
   · rw [h2, h3]; exact h.b
   · rw [h3]; exact h.t
 
-theorem inv_recv {P : Params} (hk : P.storeKeyIsRequestMID = true) {s : State} (h : Inv P.lifetime s)
+theorem inv_recv {P : Params} (hk : P.storeKeyIsRequestMID = true) (he : P.emptyReplyCached = true) {s : State} (h : Inv P.lifetime s)
     (typ : RType) (mid : Nat) (tok : List UInt8) (beh : Beh) (dur : Nat) :
     Inv P.lifetime (recv P s typ mid tok beh dur).1 := by
   unfold recv
@@ -290,7 +291,8 @@ theorem inv_recv {P : Params} (hk : P.storeKeyIsRequestMID = true) {s : State} (
       omega
     generalize hn : s.nexec + 1 = n
     generalize hnm : nestedOf beh tok n (checkMyMessageID P typ mid s.msgID) = nm
-    generalize hrc : respond typ mid tok (handlerWr beh n) nm.1 = rc
+    rw [he]
+    generalize hrc : respond true typ mid tok (handlerWr beh n) nm.1 = rc
     have hnt : ∀ d ∈ nm.2, d.tok = nestedTok tok := by rw [← hnm]; exact nestedOf_toks _ _ _ _
     refine ⟨?_, ?_, ?_⟩
     · intro o ho hs hnow
@@ -302,7 +304,7 @@ theorem inv_recv {P : Params} (hk : P.storeKeyIsRequestMID = true) {s : State} (
           exfalso
           have hr2' := hr2
           rw [← hrc] at hr2'
-          obtain ⟨ht, hb⟩ := respond_none _ _ _ _ _ _ hr2'
+          obtain ⟨ht, hb⟩ := respond_none _ _ _ _ _ _ _ hr2'
           have hnil : nm.2 = [] := by rw [← hnm]; exact nestedOf_nil _ _ _ _ hb
           simp [inScope, reply, hr2, hnil, ht] at hs
         | some rb =>
@@ -311,12 +313,11 @@ theorem inv_recv {P : Params} (hk : P.storeKeyIsRequestMID = true) {s : State} (
           | false =>
             exfalso
             rw [← hrc] at hr2
-            have := respond_uncached _ _ _ _ _ _ _ hr2
-            simp [inScope, this] at hs
+            exact respond_uncached _ _ _ _ _ _ _ hr2
           | true =>
             have htok : (r.tok != nestedTok tok) = true := by
               rw [← hrc] at hr2
-              cases respond_tok _ _ _ _ _ _ _ hr2 with
+              cases respond_tok _ _ _ _ _ _ _ _ hr2 with
               | inl h1 => rw [h1]; exact ne_nestedTok tok
               | inr h1 => rw [h1]; exact nil_ne_nestedTok tok
             refine ⟨r, ?_, ?_⟩
@@ -363,20 +364,20 @@ theorem inv_recv {P : Params} (hk : P.storeKeyIsRequestMID = true) {s : State} (
       · intro _
         exact ⟨n, rfl⟩
 
-theorem inv_step {P : Params} (hk : P.storeKeyIsRequestMID = true) {s : State} (h : Inv P.lifetime s) (e : Ev) :
+theorem inv_step {P : Params} (hk : P.storeKeyIsRequestMID = true) (he : P.emptyReplyCached = true) {s : State} (h : Inv P.lifetime s) (e : Ev) :
     Inv P.lifetime (step P s e).1 := by
   cases e with
-  | recv typ mid tok beh dur => exact inv_recv hk h typ mid tok beh dur
+  | recv typ mid tok beh dur => exact inv_recv hk he h typ mid tok beh dur
   | sleep d => exact inv_sleep h d
   | tick => exact inv_tick h
   | flush => exact inv_flush h
 
-theorem inv_runFrom {P : Params} (hk : P.storeKeyIsRequestMID = true) (evs : List Ev) :
+theorem inv_runFrom {P : Params} (hk : P.storeKeyIsRequestMID = true) (he : P.emptyReplyCached = true) (evs : List Ev) :
     ∀ s, Inv P.lifetime s → Inv P.lifetime (runFrom P s evs) := by
   induction evs with
   | nil => intro s h; exact h
   | cons e t ih =>
     intro s h
-    exact ih _ (inv_step hk h e)
+    exact ih _ (inv_step hk he h e)
 
 end CoapVerif.Lemmas.Dedup
